@@ -236,9 +236,21 @@ func c32Role(p string, dirs []string) string {
 }
 
 func runC32(c *fw.Ctx) {
+	std := [2][]string{c32Paths, c32Dirs}
+	c32Pass(c, "", false)
+	// second universe: selections three components deep, with an excluded
+	// sibling directory that sorts before the selected one (the directory nodes
+	// a and a/b are then first reached through a skipped entry)
+	c32Paths = []string{"a/b/c/x", "a/b/d/y", "a/b/z", "a/w", "top"}
+	c32Dirs = []string{"a/b/c", "a/b/d", "a/b", "a"}
+	c32Pass(c, "deep_", true)
+	c32Paths, c32Dirs = std[0], std[1]
+}
+
+func c32Pass(c *fw.Ctx, label string, deep bool) {
 	var kinds = "-12"
 	// template: every non-empty subset of the six paths, all files '1' (main) or '2' (other)
-	g, dir := c.InitRepo("c32tmpl", "sha1", false)
+	g, dir := c.InitRepo("c32tmpl"+label, "sha1", false)
 	t := &hTemplate{g: g, dir: dir, paths: c32Paths, kinds: kinds, commit: map[string]string{}}
 	var specs []fw.CommitSpec
 	var names []string
@@ -272,7 +284,10 @@ func runC32(c *fw.Ctx) {
 	var treeIdx []int
 	for i, m := range e.trees {
 		n := bits.OnesCount(uint(m))
-		if c.Thorough() || n == 6 || (n == 2 && m&1 != 0) {
+		if deep && !(n == len(c32Paths) || m == 3) && !c.Thorough() {
+			continue // quick, deep universe: the full tree and the two deep siblings alone
+		}
+		if c.Thorough() || n == len(c32Paths) || (n == 2 && m&1 != 0) {
 			treeIdx = append(treeIdx, i)
 		}
 	}
@@ -289,13 +304,13 @@ func runC32(c *fw.Ctx) {
 			}
 		}
 	}
-	c.Bound("paths", c32Paths)
-	c.Bound("directories", c32Dirs)
-	c.Bound("trees", len(treeIdx))
-	c.Bound("selections", len(e.sels))
-	c.Bound("from_states", c32From)
-	c.Bound("ops", c32Ops)
-	c.Bound("cases", len(cases))
+	c.Bound(label+"paths", c32Paths)
+	c.Bound(label+"directories", c32Dirs)
+	c.Bound(label+"trees", len(treeIdx))
+	c.Bound(label+"selections", len(e.sels))
+	c.Bound(label+"from_states", c32From)
+	c.Bound(label+"ops", c32Ops)
+	c.Bound(label+"cases", len(cases))
 	c.SetRule("trees = subsets of 6 paths (quick: the full tree and the pairs with a/x; thorough: all 63) x all 31 non-empty subsets of 5 directories x from-state (fresh clone / full checkout / earlier sparse set [a] / thorough also [b a.b], made by go-git) x {Checkout, Checkout Force, Reset Hard, Reset Merge} x target {same commit, other commit with other contents}; after a successful op the on-disk files, the skip-worktree flags read by `git ls-files -t` and `git status` are compared with the component-wise membership predicate; refused operations (e.g. selected directory not in the tree) are counted as classes, not judged; non-trivial = op succeeded; distinct counts (files inside, files tracked, from, op)")
 	c.Assume("the statement's predicate (path == d or path starts with d + '/') is the specification; git's cone mode (which always keeps root files) is NOT the oracle; git ls-files -t decodes the skip-worktree bit")
 
@@ -338,6 +353,6 @@ func runC32(c *fw.Ctx) {
 			}
 		}
 	})
-	c.Extra("refusals", refused)
+	c.Extra(label+"refusals", refused)
 	hReportClasses(c, &fails, e.render)
 }
